@@ -556,6 +556,9 @@ class TypeWorld:
             head = ast.unparse(ann.value).split(".")[-1]
             sl = ann.slice
             elts = sl.elts if isinstance(sl, ast.Tuple) else [sl]
+            if head == "Callable" and len(elts) == 2:
+                # Callable[[args], R]: calling a value of this kind yields an R (call_kind)
+                return ("callable", self.ann_kind(mod, elts[1], cls, _d + 1))
             if head in ("List", "list", "Iterable", "Sequence", "Iterator", "Generator"):
                 return ("pylist", self.ann_kind(mod, elts[0], cls, _d + 1))
             if head in ("Dict", "dict"):
@@ -995,6 +998,8 @@ class TypeWorld:
             return self.py_method(fk[1], fk[2], fk[3], e, argk, ty)
         if h == "lambda":
             return UNKNOWN
+        if h == "callable":
+            return fk[1] if isinstance(fk[1], tuple) else UNKNOWN
         return UNKNOWN
 
     def external_call(self, dotted: str, e: ast.Call, argk, kwk, ty: Typer) -> K:
